@@ -18,7 +18,9 @@
          reply := ((outcome (chunk ...) held) ...)   writes so far after each call
    | (3 cap n)                 Sorter(cap).add n times
          reply := ((outcome in_memory (chunk_size ...)) ...)
-   | (4 (case ...))            batch: the list of the replies *)
+   | (4 (case ...))            batch: the list of the replies
+   | (5 (line ...) (n ...) k)  Strict MafReader; the records on physical lines n fail to parse;
+                               reply as for 1, calls continue after a failure *)
 From MafVerif Require Import lib.Base lib.Str model.Overlap model.OverlapStream.
 
 Definition dec_rec (s : sexp) : option orec :=
@@ -97,6 +99,29 @@ Definition run_reader (lines : list str) (k : Z) : sexp :=
   | (s, Ok r) => L (L [A 0; s_of_nat (s_consumed s)] :: drive_reader (Z.to_nat k) r)
   end.
 
+(* Strict reader: the records on the listed physical lines fail to parse
+   (MafFormatException raised by from_line before the next line is pulled);
+   calls continue after a failure, the run stops at StopIteration *)
+Definition rd_next_strict (bad : list Z) :=
+  @reader_next unit str (fun _ l ln => if existsb (Z.eqb ln) bad then Raise (MafFormat 0 None) else Ok l).
+
+Fixpoint drive_reader_strict (bad : list Z) (k : nat) (r : reader unit) : list sexp :=
+  match k with
+  | O => []
+  | S k' =>
+    match rd_next_strict bad r with
+    | (r', Ok l) => L [A 0; s_of_str l; s_of_nat (s_consumed (r_src r'))] :: drive_reader_strict bad k' r'
+    | (r', Raise StopIteration) => [L [A 1; s_of_exn StopIteration; s_of_nat (s_consumed (r_src r'))]]
+    | (r', Raise e) => L [A 1; s_of_exn e; s_of_nat (s_consumed (r_src r'))] :: drive_reader_strict bad k' r'
+    end
+  end.
+
+Definition run_reader_strict (lines : list str) (bad : list Z) (k : Z) : sexp :=
+  match rd_init lines with
+  | (s, Raise e) => L [L [A 1; s_of_exn e; s_of_nat (s_consumed s)]]
+  | (s, Ok r) => L (L [A 0; s_of_nat (s_consumed s)] :: drive_reader_strict bad (Z.to_nat k) r)
+  end.
+
 (* ---- writer ---- *)
 Record wrec := { wr_cols : str; wr_line : str; wr_valid : bool }.
 Definition dec_wrec (s : sexp) : option wrec :=
@@ -145,6 +170,11 @@ Definition dispatch1 (s : sexp) : sexp :=
     match as_listof as_str lines with
     | Some ls => run_reader ls k
     | None => s_bad
+    end
+  | L [A 5; lines; bad; A k] =>
+    match as_listof as_str lines, as_listof as_Z bad with
+    | Some ls, Some b => run_reader_strict ls b k
+    | _, _ => s_bad
     end
   | L [A 2; A ws; rs] =>
     match as_listof dec_wrec rs with
